@@ -1,6 +1,7 @@
 package main
 
 import (
+	"sort"
 	"bytes"
 	"encoding/base64"
 	"encoding/json"
@@ -59,6 +60,30 @@ func admissibleWrite(data map[string]any, path string) bool {
 	return !outOfDomain
 }
 
+func nullSome(r *rand.Rand, v any) any {
+	switch x := v.(type) {
+	case map[string]any:
+		for k, c := range x {
+			if r.Intn(3) == 0 {
+				x[k] = nil
+			} else {
+				x[k] = nullSome(r, c)
+			}
+		}
+		return x
+	case []any:
+		for i, c := range x {
+			if r.Intn(3) == 0 {
+				x[i] = nil
+			} else {
+				x[i] = nullSome(r, c)
+			}
+		}
+		return x
+	}
+	return v
+}
+
 func c13Set(r *rand.Rand) Case {
 	o := c13Opts()
 	data := genDoc(r, o)
@@ -69,6 +94,17 @@ func c13Set(r *rand.Rand) Case {
 	}
 	if !admissibleWrite(data, path) {
 		path = ""
+	}
+	// a payload that mirrors what is already there, some of its members explicitly null (a null carries
+	// no value: under merge the existing member stays)
+	if r.Intn(3) == 0 {
+		var tgt any = data
+		if path != "" {
+			tgt, _ = plookup(data, parsePPath(path))
+		}
+		if tm, ok := tgt.(map[string]any); ok && len(tm) > 0 {
+			payload = nullSome(r, deepCopy(tm)).(map[string]any)
+		}
 	}
 	// root-level writes go through AddValueAt(k, v) per payload key: keys are plain here
 	strat := []string{"", "merge", "replace", "bogus"}[r.Intn(10)%4]
@@ -260,6 +296,11 @@ func c13Patch(r *rand.Rand) Case {
 	o.nulls = false
 	data := genDoc(r, o)
 	rp := c09GenOp(r, data, o)
+	if r.Intn(8) == 0 { // a pointer ending in "/" addresses the member named "" (RFC 6901), not its parent
+		rp.Path = append(append([]string{}, rp.Path...), "")
+	} else if rp.HasFrom && r.Intn(8) == 0 {
+		rp.From = append(append([]string{}, rp.From...), "")
+	}
 	ym := map[string]any{"op": rp.Op, "path": "/" + strings.Join(escPtr(rp.Path), "/")}
 	if rp.HasFrom {
 		ym["from"] = "/" + strings.Join(escPtr(rp.From), "/")
@@ -397,6 +438,12 @@ func c13Import(r *rand.Rand, idx int) Case {
 			content[i] = byte(r.Intn(256))
 		} else {
 			content[i] = "abc \n\t{}:#é"[r.Intn(11)]
+		}
+	}
+	if r.Intn(5) == 0 { // content that begins like a byte order mark (or is nothing else) is content
+		content = append([]byte{0xEF, 0xBB, 0xBF}, content...)
+		if r.Intn(3) == 0 {
+			content = append([]byte{0xEF, 0xBB, 0xBF}, content...)
 		}
 	}
 	mode := []string{"text", "binary", "", "bogus"}[r.Intn(10)%4]
@@ -542,11 +589,42 @@ func c13Export(r *rand.Rand, idx int) Case {
 	d := anyToContainer(data)
 	var err error
 	var fail []string
-	if pn := guard(func() { err = pipeline.New(pipeline.WithData(d)).Execute(act) }); pn != "" {
+	ex := pipeline.New(pipeline.WithData(d))
+	if pn := guard(func() { err = ex.Execute(act) }); pn != "" {
 		fail = append(fail, "Export failed abruptly (panic): "+pn)
 	}
 	if !reflect.DeepEqual(nodeToAny(d), any(data)) {
 		fail = append(fail, "export changed the data")
+	}
+	// the same operation object executed again after the referenced leaves have changed: references are
+	// resolved at every execution (compared with a fresh operation given the new values immediately)
+	if via%2 == 1 && err == nil && pathp != nil && format != "bogus" {
+		file2, file3 := file+".second", file+".fresh"
+		defer os.Remove(file2)
+		defer os.Remove(file3)
+		if pn := guard(func() {
+			d.AddValueAt("refs.file", dom.LeafNode(file2))
+			d.AddValueAt("refs.path", dom.LeafNode("flat"))
+			e2 := ex.Execute(act)
+			e3 := ex.Execute(&pipeline.ExportOp{File: &pipeline.ValOrRef{Val: file3}, Path: &pipeline.ValOrRef{Val: "flat"}, Format: pipeline.OutputFormat(format)})
+			b2, r2 := os.ReadFile(file2)
+			b3, r3 := os.ReadFile(file3)
+			if format == "properties" { // the k=v lines come in map order
+				norm := func(b []byte) []byte {
+					ls := strings.Split(string(b), "\n")
+					sort.Strings(ls)
+					return []byte(strings.Join(ls, "\n"))
+				}
+				b2, b3 = norm(b2), norm(b3)
+			}
+			if (e2 == nil) != (e3 == nil) || (r2 == nil) != (r3 == nil) || !bytes.Equal(b2, b3) {
+				fail = append(fail, fmt.Sprintf("second execution of one export operation after its referenced file/path leaves changed: err=%v file=%q; a fresh operation with those values: err=%v file=%q", e2, b2, e3, b3))
+			}
+			d.AddValueAt("refs.file", dom.LeafNode(file))
+			d.AddValueAt("refs.path", dom.LeafNode(*pathp))
+		}); pn != "" {
+			fail = append(fail, "panic in a second export: "+pn)
+		}
 	}
 	content, rerr := os.ReadFile(file)
 	if stale != "" && rerr == nil && err != nil && string(content) == stale {
@@ -835,7 +913,7 @@ func c13Lenient(r *rand.Rand) Case {
 func init() {
 	register(&Prop{
 		ID:   "C13",
-		Rule: "kinds: set (data documents x payload maps x target paths absent/leaf/container/list item/root x strategies merge/replace/unset/unknown, missing data), template (tiny templates, target paths incl. list items; parseAs yaml, trim with and without parseAs on whitespace-significant text, and failing templates Go side), patch (JSON patch operations decoded from YAML through PatchOp vs the C09 model; a third of the value-carrying ops also or only give valueFrom: an immediate value wins, alone it is the node at that path), import (text / binary / default / invalid mode of arbitrary bytes, at a path or the root), export (yaml/json/properties/text/unknown x whole document / unresolved / leaf / list / container: documented default or error, never a panic; outcome classified from the written file), roundtrip (export a subtree as yaml|json, import it elsewhere: equal up to the bare codec's normalisation), env (variables under a unique prefix x include/exclude prefixes x path), lenient (strings without '{{', unbalanced braces, failing actions). Every op: data outside the target unchanged (Go side). Non-trivial: target exists / export of a non-container / partial env selection / failing render. Distinct by Gallina term. Export: file and path immediate or as {ref: ...}, executed directly or as a forEach body; env: a second op with an unanchored / end-anchored pattern while other variables' values spell the names.",
+		Rule: "kinds: set (data documents x payload maps x target paths absent/leaf/container/list item/root x strategies merge/replace/unset/unknown, missing data), template (tiny templates, target paths incl. list items; parseAs yaml, trim with and without parseAs on whitespace-significant text, and failing templates Go side), patch (JSON patch operations decoded from YAML through PatchOp vs the C09 model; a third of the value-carrying ops also or only give valueFrom: an immediate value wins, alone it is the node at that path), import (text / binary / default / invalid mode of arbitrary bytes, at a path or the root), export (yaml/json/properties/text/unknown x whole document / unresolved / leaf / list / container: documented default or error, never a panic; outcome classified from the written file), roundtrip (export a subtree as yaml|json, import it elsewhere: equal up to the bare codec's normalisation), env (variables under a unique prefix x include/exclude prefixes x path), lenient (strings without '{{', unbalanced braces, failing actions). Every op: data outside the target unchanged (Go side). Non-trivial: target exists / export of a non-container / partial env selection / failing render. Distinct by Gallina term. Export: file and path immediate or as {ref: ...}, executed directly or as a forEach body; env: a second op with an unanchored / end-anchored pattern while other variables' values spell the names. Patch pointers ending in an empty token; imports of content beginning with a byte order mark; set payloads mirroring the target with members null; one export operation executed twice after its referenced leaves changed.",
 		Gen: func(r *rand.Rand, tier string, idx int) Case {
 			switch idx % 10 {
 			case 0, 1, 2:
